@@ -752,6 +752,8 @@ func init() {}
 
 type mrException struct {
 	Func, Map, Why string
+	// Holds, when set, re-establishes on the analysed tree the fact the exception rests on
+	Holds func(c *Ctx) (bool, string)
 }
 
 // checkMapRanges classifies every site in the given packages. exceptions are
@@ -779,6 +781,12 @@ func (c *Ctx) checkMapRanges(rule string, rels []string, exceptions []mrExceptio
 			for _, e := range exceptions {
 				if e.Func == s.fnName && e.Map == s.mapStr {
 					exc = true
+					if e.Holds != nil {
+						if ok, det := e.Holds(c); !ok {
+							L.Bad(rule, s.fnName, construct, pos, "order-sensitive map traversal ("+strings.Join(v.reasons, "; ")+"); the reason it was accepted for no longer holds: "+det)
+							continue
+						}
+					}
 					L.OK(rule, s.fnName, construct, pos, "order-sensitive body ("+strings.Join(v.reasons, "; ")+") but reasoned exception: "+e.Why)
 				}
 			}
@@ -987,4 +995,46 @@ func comparatorIsTotalOn(info *types.Info, fn ast.Expr, o types.Object) bool {
 		return ok && info.Uses[id] == o
 	}
 	return isElem(be.X) && isElem(be.Y)
+}
+
+
+// sliceParamsScannedOnly: every slice parameter of the function is only scanned (len, element
+// reads at the index of a loop over it): the function tests membership, nothing in it depends on
+// the order of the elements. A binary search, a first-element read or a re-slice does.
+func (c *Ctx) sliceParamsScannedOnly(rel, name string) (bool, string) {
+	f := c.P.Func(rel, "", name)
+	if f == nil || f.Blocks == nil {
+		return false, "function " + name + " not found"
+	}
+	loops := naturalLoops(f)
+	for _, p := range f.Params {
+		if _, isSlice := p.Type().Underlying().(*types.Slice); !isSlice {
+			continue
+		}
+		if p.Referrers() == nil {
+			continue
+		}
+		for _, r := range *p.Referrers() {
+			switch x := r.(type) {
+			case *ssa.DebugRef:
+			case *ssa.Call:
+				if builtinName(x.Common()) != "len" {
+					return false, fmt.Sprintf("%s is handed to %s at %s", p.Name(), x.Common().Value.Name(), c.P.Pos(x.Pos()))
+				}
+			case *ssa.IndexAddr:
+				own := false
+				for _, lp := range loops {
+					if lp.Blocks[x.Block()] && ownIndexOf(lp, stripConv(x.Index)) {
+						own = true
+					}
+				}
+				if !own {
+					return false, fmt.Sprintf("%s is indexed outside a scan at %s", p.Name(), c.P.Pos(x.Pos()))
+				}
+			default:
+				return false, fmt.Sprintf("%s is used by %T at %s", p.Name(), r, c.P.Pos(r.Pos()))
+			}
+		}
+	}
+	return true, ""
 }
